@@ -3,7 +3,8 @@ From Coq Require Import String.
 From Coq Require Import List ZArith QArith Qabs Bool Arith.
 Import ListNotations.
 Require Import DH.C05_Direction.Model DH.C05_Direction.LemmasBasic DH.C05_Direction.LemmasVec DH.C05_Direction.LemmasSign
-  DH.C05_Direction.LemmasScalar DH.C05_Direction.Check DH.C05_Direction.Names.
+  DH.C05_Direction.LemmasScalar DH.C05_Direction.LemmasInvar DH.C05_Direction.LemmasHist DH.C05_Direction.LemmasAffine
+  DH.C05_Direction.LemmasScaler DH.C05_Direction.LemmasFinal DH.C05_Direction.Check DH.C05_Direction.Names.
 Require Import DH.Generated.Facts_C05.
 Open Scope Q_scope.
 
@@ -87,6 +88,93 @@ Proof.
 Qed.
 Print Assumptions C05_utopia_unique_minimum.
 
+(* Several objectives, exploitation only, every candidate observed, interpolating surrogate, REPAIRED scalarisation
+   (relative to the utopia point), any objective scaler that is increasing per objective on the told sample,
+   weights > 0.  [ob c j] is objective j of candidate c in the user's terms (larger is better).
+   (1) all five scalarisers: a candidate that is best in every objective is proposed (up to equal objective values);
+   (2) Linear / Chebyshev / AugChebyshev: no candidate is better than the proposal in every objective;
+   (3) Linear / AugChebyshev (alpha > 0): the proposal is Pareto optimal. *)
+Theorem C05_moo_exploit :
+  forall (C : Type) (obj : C -> list Q) (mu sigma : C -> Q) (sc : nat -> Q -> Q) (kappa par : Q) (k : skind) (w : list Q) (m : nat)
+         (cs : list C) (d : C),
+    kappa == 0 -> allpos w -> length w = m -> (0 < m)%nat -> 0 <= par -> cs <> [] ->
+    (forall j a b, (j < m)%nat -> In a (col j (toldY C obj cs)) -> In b (col j (toldY C obj cs)) ->
+                   (a <= b -> sc j a <= sc j b) /\ (a < b -> sc j a < sc j b)) ->
+    Forall2 (fun c s => mu c == s) cs (moo_score sc k par w m (toldY C obj cs)) ->
+    let x := nth (next_idx kappa (map mu cs) (map sigma cs)) cs d in
+    In x cs
+    /\ (forall c', In c' cs -> (forall c j, In c cs -> (j < m)%nat -> ob C obj c j <= ob C obj c' j) ->
+                   forall j, (j < m)%nat -> ob C obj x j == ob C obj c' j)
+    /\ (k = SLin \/ k = SCheb \/ k = SAug ->
+        forall c, In c cs -> ~ (forall j, (j < m)%nat -> ob C obj x j < ob C obj c j))
+    /\ (k = SLin \/ (k = SAug /\ 0 < par) ->
+        forall c, In c cs -> (forall j, (j < m)%nat -> ob C obj x j <= ob C obj c j) ->
+                  forall j, (j < m)%nat -> ob C obj c j == ob C obj x j).
+Proof.
+  intros C obj mu sigma sc kappa par k w m cs d Hk Hw Lw Hm Hpar Hne Hsc Hint x.
+  split; [|split; [|split]].
+  - exact (proj1 (proposal_min C obj mu sigma sc kappa par k w m cs d Hk Hne Hint)).
+  - intros c' Hc' Hb. eapply moo_ideal with (sc := sc) (par := par) (k := k) (w := w); eassumption.
+  - intros Hkind. eapply moo_weak with (sc := sc) (par := par) (k := k) (w := w); eassumption.
+  - intros Hkind. eapply moo_pareto with (sc := sc) (par := par) (k := k) (w := w); eassumption.
+Qed.
+Print Assumptions C05_moo_exploit.
+
+(* The modelled scalers (identity, minmax, quantile-uniform fitted on the sample) satisfy the scaler hypothesis, so the three
+   conclusions hold for the model's own pipeline [moo_scalarize] with no assumption on the scaler. *)
+Theorem C05_scalers_increasing :
+  forall sk ys a b, In a ys -> In b ys ->
+    (a <= b -> scale_col sk ys a <= scale_col sk ys b) /\ (a < b -> scale_col sk ys a < scale_col sk ys b).
+Proof. intros sk ys a b Ha Hb. exact (scale_col_inc sk ys a b Ha Hb). Qed.
+Print Assumptions C05_scalers_increasing.
+
+Theorem C05_moo_exploit_model_scalers :
+  forall (C : Type) (obj : C -> list Q) (mu sigma : C -> Q) (sk : sckind) (kappa par : Q) (k : skind) (w : list Q) (m : nat)
+         (cs : list C) (d : C),
+    kappa == 0 -> allpos w -> length w = m -> (0 < m)%nat -> 0 <= par -> cs <> [] ->
+    Forall2 (fun c s => mu c == s) cs (moo_scalarize sk k par w m (toldY C obj cs)) ->
+    let x := nth (next_idx kappa (map mu cs) (map sigma cs)) cs d in
+    (forall c', In c' cs -> (forall c j, In c cs -> (j < m)%nat -> ob C obj c j <= ob C obj c' j) ->
+                forall j, (j < m)%nat -> ob C obj x j == ob C obj c' j)
+    /\ (k = SLin \/ k = SCheb \/ k = SAug ->
+        forall c, In c cs -> ~ (forall j, (j < m)%nat -> ob C obj x j < ob C obj c j))
+    /\ (k = SLin \/ (k = SAug /\ 0 < par) ->
+        forall c, In c cs -> (forall j, (j < m)%nat -> ob C obj x j <= ob C obj c j) ->
+                  forall j, (j < m)%nat -> ob C obj c j == ob C obj x j).
+Proof.
+  intros C obj mu sigma sk kappa par k w m cs d Hk Hw Lw Hm Hpar Hne Hint x. split; [|split].
+  - intros c' Hc' Hb. eapply concrete_ideal with (sk := sk) (par := par) (k := k) (w := w); eassumption.
+  - intros Hkind. eapply concrete_weak with (sk := sk) (par := par) (k := k) (w := w); eassumption.
+  - intros Hkind. eapply concrete_pareto with (sk := sk) (par := par) (k := k) (w := w); eassumption.
+Qed.
+Print Assumptions C05_moo_exploit_model_scalers.
+
+(* The direction does not change when a constant is added to the objectives or they are rescaled by a positive factor:
+   the index selected on the scalarised history of  a*Y + b  is the index selected on Y.  With the identity scaler: one common
+   factor (a_j == a_0) and any shift per objective; with minmax / quantile-uniform: any a_j > 0, b_j per objective.
+   All five scalarisers (REPAIRED: relative to the utopia point), any weights, any parameter. *)
+Theorem C05_shift_scale_invariant :
+  forall sk k par w m Y (a b : nat -> Q),
+    Y <> [] -> (forall j, 0 < a j) -> (sk = ScId -> forall j, a j == a O) ->
+    argmin_idx (moo_scalarize sk k par w m (affine a b m Y)) = argmin_idx (moo_scalarize sk k par w m Y).
+Proof. exact shift_scale_invariant. Qed.
+Print Assumptions C05_shift_scale_invariant.
+
+(* single objective: told values a*y + b (a > 0) under any strictly increasing scaler select the same index as y *)
+Theorem C05_single_objective_invariant :
+  forall (sc sc' : Q -> Q) a b ys,
+    0 < a -> (forall x y, x < y -> sc x < sc y) -> (forall x y, x < y -> sc' x < sc' y) ->
+    (forall x y, x == y -> sc x == sc y) -> (forall x y, x == y -> sc' x == sc' y) ->
+    argmin_idx (map (fun y => sc' (a * y + b)) ys) = argmin_idx (map sc ys).
+Proof. exact so_argmin_invariant. Qed.
+Print Assumptions C05_single_objective_invariant.
+
+(* positive homogeneity and compatibility with pointwise equality, all five scalarisers *)
+Theorem C05_scalar_homogeneous :
+  forall k par w a y, 0 <= a -> scal k par w (vscale a y) == hdeg k a * scal k par w y.
+Proof. exact scal_scale. Qed.
+Print Assumptions C05_scalar_homogeneous.
+
 (* TODAY's code (before fix F07) applies the scalarisers to the unshifted negated objectives: Chebyshev prefers the point
    that is worse in every objective.  Witness y = (-3,-3) (objectives 3,3), y' = (-1,-1): 3/2 vs 1/2. *)
 Theorem C05_cheb_refuted : exists w y y', allpos w /\ vlt y y' /\ cheb w y' < cheb w y.
@@ -136,3 +224,17 @@ Example C05_example_f07 :
   argmin_idx (scal_hist_today SCheb 0 [1#2; 1#2] [[-3#1; -3#1]; [-1#1; -1#1]]) = 1%nat
   /\ argmin_idx (scal_hist SCheb 0 [1#2; 1#2] 2 [[-3#1; -3#1]; [-1#1; -1#1]]) = 0%nat.
 Proof. vm_compute. split; reflexivity. Qed.
+
+(* the hypotheses of C05_moo_exploit_model_scalers are satisfiable and the conclusion is not trivial: three candidates,
+   objectives (1,5), (4,4), (5,1) and (6,6)-free; Chebyshev with minmax scaler proposes (4,4) *)
+Example C05_example_moo :
+  let objs := [[1; 5]; [4; 4]; [5; 1]] in
+  let S := moo_scalarize ScMinMax SCheb 0 [1#2; 1#2] 2 (map vneg objs) in
+  next_idx 0 S [1; 1; 1] = 1%nat /\ ok_pick_weak objs 1 = true /\ ok_pick_pareto objs 1 = true.
+Proof. vm_compute. repeat split; reflexivity. Qed.
+
+Example C05_example_invariant :
+  let Y := [[-3#1; -3#1]; [-1#1; -5#1]; [-4#1; -1#1]] in
+  argmin_idx (moo_scalarize ScId SQuad 10 [1#2; 1#2] 2 (affine (fun _ => 8) (fun j => inject_Z (Z.of_nat j) + 100) 2 Y))
+  = argmin_idx (moo_scalarize ScId SQuad 10 [1#2; 1#2] 2 Y).
+Proof. vm_compute. reflexivity. Qed.
